@@ -982,6 +982,17 @@ def check(ctx):
     from . import c10
     c10.restart_repair(ctx, 'C09.4')
     c10._server_deletion(ctx, 'C09.4')
+    # shared with C11.2 / C11.4: every recorded instance that a reload does
+    # not put back has its record deleted in the same iteration (the next
+    # cycle places it elsewhere and writes a second record; the first
+    # publication only deletes what the cycle reported as the old server)
+    from . import c11
+    loader = ctx.index.get_class(K.LOADER, 'Loader')
+    with ctx.shared({'C11': 'C09.4'}):
+        found = c11._verbatim(ctx, loader)
+        if found is not None:
+            c11._keys_and_identity(ctx, loader, master, found[0], found[1],
+                                   found[2])
 
 
 _M = 'lib/python/treadmill/scheduler/master.py'
